@@ -52,7 +52,7 @@ def main():
     res = {}
     for sr in glob.glob(V + "/seeded/RESULTS-*.json"):
         for x in json.load(open(sr))["results"]:
-            res[x["mutant"]] = x
+            res[x["mutant"].replace("(ported)", "")] = dict(x, ported="(ported)" in x["mutant"])
     for d in sorted(glob.glob(V + "/seeded/C*-*")):
         name = os.path.basename(d)
         mp = d + "/meta.json"
@@ -67,7 +67,7 @@ def main():
                     notes = ln[:160]
                     break
         x = res.get(name, {})
-        out.append("| %s | %s | %s | %s | %s |" % (name, meta.get("property"), notes.replace("|", "/"), x.get("result", "not run"),
+        out.append("| %s | %s | %s | %s | %s |" % (name, meta.get("property"), notes.replace("|", "/"), (x.get("result", "not run") + (" (re-diffed against HEAD: patch-ported.diff)" if x.get("ported") else "")),
                                                   ", ".join("`%s`" % k for k in x.get("keys", [])[:3])))
     txt = "\n".join(out) + "\n"
     p = V + "/DESIGN.md"
